@@ -104,3 +104,22 @@ example : invoke (intercept (intercept (.base true 7) (some (logPass false 0)) n
     = ([.int false 1 (some 7) ⟨1, 0⟩], 1) := by decide
 
 end InterceptClient
+
+namespace InterceptClient
+
+/-- regenerated from intercept.go on every run: the continuation handed to a client interceptor is the
+    wrapper's own method value, and that method forwards the call to the wrapped channel with exactly
+    the options the interceptor passed — which is what `invoke inner` / `newStream inner` as the
+    continuation of the model mean (`C17_client_unary_once`, `C17_client_stream_once`) -/
+theorem C17_continuation_facts :
+    Gen.clientUnaryContinuation = ("intch.unaryInvoker", "{ return intch.ch.Invoke(ctx, methodName, req, resp, opts...) }") ∧
+    Gen.clientStreamContinuation = ("intch.streamer", "{ return intch.ch.NewStream(ctx, desc, methodName, opts...) }") := by
+  decide
+
+/-- an interceptor that forwards without options reaches the next layer without options, whatever the caller passed -/
+theorem C17_dropped_options_stay_dropped (inner : Chan) (s : Option Interceptor) (c : Call) (layer : Nat) :
+    invoke (.wrapped inner (some (logDrop false layer)) s) c =
+      ((.int false layer (ccOf Gen.unaryCCUsesUnwrap inner) c) :: (invoke inner { c with opts := 0 }).1, (invoke inner { c with opts := 0 }).2) := by
+  simp [invoke, logDrop]
+
+end InterceptClient
